@@ -30,7 +30,26 @@ template <class GC, class S, class N, class CFG> struct TSet : IntrA<GC, S, N, C
     explicit TSet(const Program& p) { g_level_mode = (int)p.knob("level_mode", 2); this->s.reset(new S()); }
     R extract_min() { return Access<GC>::extract_min(*this->s); }
     R extract_max() { return Access<GC>::extract_max(*this->s); }
-    bool consistent(std::string& why) { return chk(why, 0); }
+    bool consistent(std::string& why) { return chk(why, 0) && levels(why, 0); }
+    // C18: "every skip-list level is an ordered sub-list of the level below".  The nodes are ours, so their towers are visible: at quiescence
+    // level L must link exactly the present nodes whose tower is higher than L, in key order, with no deletion mark left.
+    template <class X = N> auto levels(std::string& why, int) -> decltype(std::declval<X&>().height(), bool()) {
+        std::vector<N*> order; for (auto it = this->s->begin(); it != this->s->end(); ++it) order.push_back(&*it);
+        for (size_t i = 0; i < order.size(); i++) {
+            N* n = order[i];
+            for (unsigned L = 0; L < n->height(); L++) {
+                auto nx = n->next(L).load(atomics::memory_order_relaxed);
+                N* expect = nullptr; for (size_t j = i + 1; j < order.size(); j++) if (order[j]->height() > L) { expect = order[j]; break; }
+                char b[200];
+                if (nx.bits()) { snprintf(b, sizeof b, "skip list: key %ld is present at quiescence but its level-%u link carries a deletion mark", n->key, L); why = b; return false; }
+                if (static_cast<N*>(nx.ptr()) != expect) { snprintf(b, sizeof b, "skip list: level %u is not the ordered sub-list of the level below: key %ld (tower %u) links to %s%ld, expected %s%ld", L, n->key, n->height(), nx.ptr() ? "key " : "end ", nx.ptr() ? static_cast<N*>(nx.ptr())->key : 0L, expect ? "key " : "end ", expect ? expect->key : 0L); why = b; return false; }
+            }
+        }
+        this->lvl_checked = true; return true;
+    }
+    bool levels(std::string&, long) { return true; }
+    bool lvl_checked = false;
+    void probes(Ctx& c) { IntrA<GC, S, N, CFG>::probes(c); if (lvl_checked) c.probe("skiplist_levels_checked"); }
     template <class X = S> auto chk(std::string& why, int) -> decltype(std::declval<X&>().check_consistency(), bool()) { if (!this->s->check_consistency()) { why = "check_consistency() returned false at quiescence"; return false; } return true; }
     bool chk(std::string&, long) { return true; }
 };
